@@ -672,8 +672,9 @@ def sim_run(case, want_trace=False):
                 side.validated.add(a)
         before = snap(side)
         first = (not side.is_client) and not side.conn._network_paths
+        pending = bool(side.conn._close_pending)      # labelled peek: a close has been decided but not yet sent
         guarded(side, side.conn.receive_datagram, data, src, now, drain_after=False)
-        ledger[side.name].append(["recv", ADDR_ID.get(src, 9), n, before, snap(side), first])
+        ledger[side.name].append(["recv", ADDR_ID.get(src, 9), n, before, snap(side), first, pending])
         drain(side)
         note(side.name, "<-", ADDR_ID.get(src, 9), n, "genuine" if genuine else "forged")
 
@@ -907,7 +908,7 @@ def _paths_tok(ps):
 def _fates(e):
     """Project what the packet handlers decided from the path list before/after (the model takes these
     decisions as input; the byte counting, registration and promotion mechanics are what is compared)."""
-    _, addr, n, before, after, first = e
+    _, addr, n, before, after, first = e[:6]
     b = {p[0]: p for p in before}
     a = {p[0]: p for p in after}
     f = []
@@ -930,6 +931,8 @@ def l_encode(case):
     for e in case["ops"]:
         if e[0] == "term":
             t += [3]
+        elif e[0] == "recv" and len(e) > 6 and e[6]:
+            t += [4, e[1], e[2]]
         elif e[0] == "recv":
             fs = _fates(e)
             t += [0, e[1], e[2], len(fs)]
